@@ -294,7 +294,9 @@ class SchedEngine(Engine):
             if writers and r.random() < 0.7:
                 threads[pol['writer']][0] = {'op': 'goc', 'key': 'k0', 'force': True}
         return {'engine': 'schedsim', 'ctype': r.choice(['json', 'json', 'npy', 'df']), 'threads': threads, 'policy': pol, 'choices': None,
-                'chunks': r.choice([1, 2, 3]), 'big': r.choice([False, False, True, 'mixed', 'mixed']), 'pre': r.random() < 0.6, 'own_cache': r.random() < 0.8}
+                'chunks': r.choice([1, 2, 3]), 'big': r.choice([False, False, True, 'mixed', 'mixed']), 'pre': r.random() < 0.6, 'own_cache': r.random() < 0.8,
+                # simulated duration of one computation (seconds on the simulated clock that lock timeouts and polls read)
+                'compute_s': r.choice([0, 0, 0.3, 15, 45, 300, 4000])}
 
     # ------------------------------------------------------------------------------------------ execution
     def execute(self, scn, ctx):
@@ -313,7 +315,17 @@ class SchedEngine(Engine):
         real_open = builtins.open
         real_io_open = io.open
         real_sleep = time.sleep
+        real_perf = time.perf_counter
+        real_mono = time.monotonic
+        simclock = [1000.0]
         prefix = os.path.realpath(cdir)
+
+        def sim_perf():
+            # every deadline of the code under test (filelock timeouts) reads the simulated clock
+            return simclock[0] if sched.me() is not None else real_perf()
+
+        def sim_mono():
+            return simclock[0] if sched.me() is not None else real_mono()
 
         def sim_open(file, mode='r', *a, **k):
             f = real_open(file, mode, *a, **k)
@@ -332,6 +344,7 @@ class SchedEngine(Engine):
         def sim_sleep(s):
             if sched.me() is None:
                 return real_sleep(s)
+            simclock[0] += max(0.0, float(s))
             sched.yield_point('sleep')
 
         def tracer(frame, event, arg):
@@ -370,6 +383,8 @@ class SchedEngine(Engine):
                         v = make_value(ctype, vid, scn['big'])
                         sched.marks[i] = 'computing'
                         sched.yield_point('compute')
+                        simclock[0] += float(scn.get('compute_s') or 0)
+                        sched.yield_point('compute')
                         comp['end'] = sched.step
                         return v
                     try:
@@ -391,6 +406,8 @@ class SchedEngine(Engine):
         builtins.open = sim_open
         io.open = sim_open
         time.sleep = sim_sleep
+        time.perf_counter = sim_perf
+        time.monotonic = sim_mono
         hung = False
         try:
             for t in ths:
@@ -415,6 +432,8 @@ class SchedEngine(Engine):
             builtins.open = real_open
             io.open = real_io_open
             time.sleep = real_sleep
+            time.perf_counter = real_perf
+            time.monotonic = real_mono
         # a value handed to a caller stays what it was, whatever other callers write afterwards
         for rec, v in held:
             if v is not tc.NO_VALUE:
@@ -431,7 +450,7 @@ class SchedEngine(Engine):
                     final[key] = {'exc': [type(e).__name__, str(e)[:120]]}
         finally:
             shutil.rmtree(d, ignore_errors=True)
-        return {'calls': calls, 'comps': comps, 'final': final, 'steps': sched.step, 'trace': sched.trace, 'hung': hung,
+        return {'calls': calls, 'comps': comps, 'final': final, 'steps': sched.step, 'sim_s': round(simclock[0] - 1000.0, 3), 'trace': sched.trace, 'hung': hung,
                 'deadlock': sched.deadlock, 'cap': sched.step > STEP_CAP, 'windows': sched.windows}
 
     # ------------------------------------------------------------------------------------------ oracle
@@ -507,7 +526,7 @@ class SchedEngine(Engine):
                     d('I-quiescence', 'at quiescence the stored entry is not the complete result of the last computation saved under the lock',
                       key=key, final=fv, expected=last['vid'])
         w = obs['windows']
-        stats = {'fired': {'preemption': 1}, 'steps': obs['steps'], 'two_waiting_on_lock': int(w['two_waiting_on_lock'] > 0),
+        stats = {'fired': {'preemption': 1}, 'steps': obs['steps'], 'sim_s': obs.get('sim_s', 0), 'two_waiting_on_lock': int(w['two_waiting_on_lock'] > 0),
                  'preempt_in_save': int(w['preempt_in_save'] > 0),
                  'reader_recomputed_under_writer': int(any(c['op'] == 'goc' and not c['force'] and c['computed'] and
                                                          ((scn.get('pre') and c['key'] == 'k0')) for c in calls)),
